@@ -37,6 +37,7 @@ class Machine:
         self.trace = []
         self.param_values = False
         self.depth = 0
+        self.ptrs = {}      # pointer token -> (did, bit offset) for addresses of locals
 
     # ---- lvalues rooted at locals -------------------------------------------------------
     def locate(self, n):
@@ -55,7 +56,37 @@ class Machine:
             return (base[0], base[1] + off, w, n.t)
         if n.k in ("ImplicitCastExpr",) and n.ck in ("NoOp",):
             return self.locate(n.kids[0])
+        if (n.k == "MemberExpr" and n.arrow) or (n.k == "UnaryOperator" and n.op == "*"):
+            # through a pointer that holds the address of a local (`helper(&state)` after inlining: `p->f`, `*p`)
+            base = self.pointee(n.kids[0])
+            if base is None:
+                return None
+            if n.k == "UnaryOperator":
+                ti = type_info(n.t)
+                return (base[0], base[1], ti[0] if ti else 64, n.t)
+            off, w, f = self.lay.field(n.rec, n.field)
+            if w is None:
+                return None
+            return (base[0], base[1] + off, w, n.t)
         return None
+
+    PTR_BASE = 0x6A00000000
+
+    def pointee(self, p):
+        """(did, bit offset) when pointer expression p evaluates to the address of (part of) a local, else None"""
+        try:
+            v = self.eval(p)
+        except Unevaluable:
+            return None
+        return self.ptrs.get(v)
+
+    def address_of(self, n):
+        loc = self.locate(n)
+        if loc is None:
+            return None
+        tok = self.PTR_BASE + 0x1000 * (loc[0] % 0x100000) + loc[1] // 8
+        self.ptrs[tok] = (loc[0], loc[1])
+        return tok
 
     def read(self, loc):
         did, off, w, t = loc
@@ -81,6 +112,10 @@ class Machine:
                 return self.read(loc)
         if n.k == "ImplicitCastExpr" and n.ck == "AtomicToNonAtomic":
             return None
+        if n.k == "UnaryOperator" and n.op == "&":
+            tok = self.address_of(n.kids[0])
+            if tok is not None:
+                return tok
         if self.ext is not None:
             v = self.ext(n)
             if v is not None:
@@ -219,6 +254,14 @@ class Machine:
                 return None
             if len(succ) == 1 and len(fn.blocks[b]["succs"]) <= 1:
                 b, i = succ[0][1], 0
+                continue
+            sw = fn.switch_cond(b)
+            if sw is not None:
+                v = self.eval(sw)
+                nxt = [t for idx, t in succ if fn.switch_takes(b, idx, v)]
+                if len(nxt) != 1:
+                    raise Unevaluable("switch target")
+                b, i = nxt[0], 0
                 continue
             c = fn.block_cond(b)
             if c is None:
